@@ -664,6 +664,10 @@ Definition member_okb (s : schema) (d : xdoc) (so m : xid) : bool :=
      end) d.
 Definition members_okb (s : schema) (d : xdoc) : bool :=
   forallb (fun e => match dec_view e with Ok v => forallb (member_okb s d (fst v)) (snd v) | _ => false end) (filter is_view d).
+(* the ids of cas:NULL and of the feature structure elements are pairwise distinct (implied by doc_ok_xmi, which says it
+   of the two kinds separately; kept as a premise of its own to spare the proof a partition argument) *)
+Definition other_ids_okb (d : xdoc) : bool :=
+  match mapM x_id (filter is_other d) with Ok l => nodupZ l | _ => false end.
 Definition reader_okb (parse_flt : string -> option flt) (s : schema) (d : xdoc) : bool :=
   doc_ok_xmi parse_flt s d && schema_okb s && sofa_feat_okb s && names_okb d
-  && forallb (elem_okb s) (filter is_other d) && sofas_okb d && members_okb s d.
+  && forallb (elem_okb s) (filter is_other d) && sofas_okb d && members_okb s d && other_ids_okb d.
